@@ -170,3 +170,145 @@ def scan(relpath):
             res.append(('tls-symbol-in-shared-section:' + name, False, 'declared thread_local but emitted in .' + sec,
                         {'symbol': name, 'section': sec}))
     return res, nvars
+
+
+# -------------------------------------------------------------------------------------------------------------------
+# const operations that reach another object through a pointer member (pimpl, shared sub-plans): C++ constness is
+# shallow there -- `_d->solve(x)` compiles in a const method even if solve() is not const. Plans are documented as
+# shareable between threads through their const interface, so a const method that reaches, through a pointer member,
+# a non-const method which writes one of its object's data members writes state that two threads share.
+_ASSIGN_OPS = {'operator=', 'operator+=', 'operator-=', 'operator*=', 'operator/=', 'operator|=', 'operator&=', 'operator^=',
+               'operator<<=', 'operator>>=', 'operator%=', 'operator++', 'operator--'}
+
+
+def _strip(n):
+    while isinstance(n, dict) and n.get('kind') in ('ImplicitCastExpr', 'ParenExpr', 'ExprWithCleanups', 'CXXBindTemporaryExpr',
+                                                     'MaterializeTemporaryExpr', 'CXXFunctionalCastExpr', 'CXXStaticCastExpr') and n.get('inner'):
+        n = n['inner'][-1] if n.get('kind') == 'CXXFunctionalCastExpr' else n['inner'][0]
+    return n
+
+
+def _member_root(n):
+    """name of the data member of *this that the lvalue expression n designates (through [] . -> on sub-objects), or None"""
+    n = _strip(n)
+    while isinstance(n, dict):
+        k = n.get('kind')
+        if k == 'MemberExpr':
+            base = _strip(n['inner'][0]) if n.get('inner') else None
+            if isinstance(base, dict) and base.get('kind') == 'CXXThisExpr':
+                return n.get('name')
+            if n.get('isArrow'):
+                return None          # through another pointer: a different object
+            n = base
+        elif k == 'ArraySubscriptExpr':
+            n = _strip(n['inner'][0])
+        elif k == 'CXXOperatorCallExpr' and len(n.get('inner', ())) >= 2 and _callee_name(n) == 'operator[]':
+            n = _strip(n['inner'][1])
+        elif k == 'CXXMemberCallExpr':
+            me = _strip(n['inner'][0])
+            if me.get('kind') == 'MemberExpr' and not me.get('isArrow') and me.get('name') in ('data', 'begin', 'end', 'at', 'front', 'back'):
+                n = _strip(me['inner'][0])
+            else:
+                return None
+        elif k == 'UnaryOperator' and n.get('opcode') == '*':
+            return None
+        else:
+            return None
+    return None
+
+
+def _callee_name(n):
+    f = _strip(n['inner'][0]) if n.get('inner') else None
+    if isinstance(f, dict) and f.get('kind') == 'DeclRefExpr':
+        return f.get('referencedDecl', {}).get('name')
+    return None
+
+
+def _is_const_method(d):
+    qt = d.get('type', {}).get('qualType', '')
+    tail = qt[qt.rfind(')') + 1:]
+    return bool(re.search(r'\bconst\b', tail))
+
+
+def member_writes(fnode):
+    """data members of *this written directly by the body of a method: [(member, line)]"""
+    out = []
+
+    def walk(n):
+        if not isinstance(n, dict):
+            return
+        k = n.get('kind')
+        if k in ('BinaryOperator', 'CompoundAssignOperator') and (n.get('opcode') == '=' or k == 'CompoundAssignOperator'):
+            r = _member_root(n['inner'][0])
+            if r:
+                out.append((r, n.get('_line')))
+        elif k == 'UnaryOperator' and n.get('opcode') in ('++', '--'):
+            r = _member_root(n['inner'][0])
+            if r:
+                out.append((r, n.get('_line')))
+        elif k == 'CXXOperatorCallExpr' and _callee_name(n) in _ASSIGN_OPS and len(n.get('inner', ())) >= 2:
+            r = _member_root(n['inner'][1])
+            if r:
+                out.append((r, n.get('_line')))
+        elif k == 'CXXMemberCallExpr':
+            me = _strip(n['inner'][0])
+            if me.get('kind') == 'MemberExpr' and not me.get('isArrow') and me.get('inner'):
+                objt = _strip(me['inner'][0])
+                qt = objt.get('type', {}).get('qualType', '') if isinstance(objt, dict) else ''
+                r = _member_root(me['inner'][0])
+                # a non-const member function called on a data member of *this (push_back, resize, ...)
+                if r and not qt.startswith('const ') and me.get('name') not in ('size', 'data', 'begin', 'end', 'empty'):
+                    md = me.get('referencedMemberDecl')
+                    out.append((r, n.get('_line'), md))
+        for c in n.get('inner', ()):
+            walk(c)
+
+    walk(fnode)
+    return out
+
+
+def scan_const_reach(relpath):
+    """[(caller, callee, callee_is_const, writes, where)] for every call `ptr_member->method(...)` inside a const method"""
+    tu = astdb.load_tu(relpath)
+    rows = []
+    for q, fs in tu.funcs.items():
+        for f in fs:
+            if f.get('kind') != 'CXXMethodDecl' or not _is_const_method(f):
+                continue
+            body = [c for c in f.get('inner', ()) if c.get('kind') == 'CompoundStmt']
+            if not body:
+                continue
+
+            def walk(n):
+                if not isinstance(n, dict):
+                    return
+                if n.get('kind') == 'CXXMemberCallExpr' and n.get('inner'):
+                    me = _strip(n['inner'][0])
+                    if me.get('kind') == 'MemberExpr' and me.get('isArrow') and me.get('inner'):
+                        base = _strip(me['inner'][0])
+                        via = None
+                        if base.get('kind') == 'CXXOperatorCallExpr' and _callee_name(base) == 'operator->' and len(base.get('inner', ())) >= 2:
+                            via = _member_root(base['inner'][1])
+                        elif base.get('kind') == 'MemberExpr':
+                            via = _member_root(base)
+                        elif base.get('kind') == 'CXXMemberCallExpr':       # ptr.get()->method()
+                            m2 = _strip(base['inner'][0])
+                            if m2.get('kind') == 'MemberExpr' and m2.get('name') == 'get' and m2.get('inner'):
+                                via = _member_root(m2['inner'][0])
+                        if via is not None:
+                            d = tu.decls.get(me.get('referencedMemberDecl'))
+                            if d is not None and d.get('kind') == 'CXXMethodDecl' and d.get('storageClass') != 'static':
+                                dd = d
+                                if not [c for c in d.get('inner', ()) if c.get('kind') == 'CompoundStmt']:
+                                    for g in tu.funcs.get(d.get('_qual'), ()):
+                                        if g.get('type') == d.get('type') and [c for c in g.get('inner', ()) if c.get('kind') == 'CompoundStmt']:
+                                            dd = g
+                                has_body = bool([c for c in dd.get('inner', ()) if c.get('kind') == 'CompoundStmt'])
+                                rows.append({'caller': q, 'via': via, 'callee': d.get('_qual'), 'callee_const': _is_const_method(d),
+                                             'callee_has_body': has_body, 'writes': [w[:2] for w in member_writes(dd)] if has_body else None,
+                                             'where': '%s:%s' % (os.path.relpath(n.get('_file') or f.get('_file') or '?', astdb.REPO), n.get('_line'))})
+                for c in n.get('inner', ()):
+                    walk(c)
+
+            walk(body[0])
+    return rows
